@@ -15,22 +15,26 @@ MANIFEST = dict(
          "path from the loop head to the back edge yields exactly once, the loop's own item, that no other yield exists, that the "
          "wrapped iterable is iterated directly (never materialised) and that the loop has no early exit; public wrappers forward the "
          "iterable in role. Nullness analysis (interprocedural) decides that a total that may be None never reaches an ordering "
-         "comparison or arithmetic without a dominating None test. Parallel map: the result is list(...) over the executor's ordered "
+         "comparison or arithmetic without a dominating None test; the same dataflow over the names that may be 0 decides that a total of 0 "
+         "(empty iterable) is never a divisor before an item was drawn without a dominating zero-excluding test. Parallel map: the result is list(...) over the executor's ordered "
          "map inside its with-block; unordered collection APIs are forbidden. Key-value partition: every store to the key array is "
-         "paired with the same-index store to the value array and the skeleton equals the plain partition. Chunking: the section "
+         "paired with the same-index store to the value array and the skeleton equals the plain partition; a typestate analysis of the vacated "
+         "slot (path-wise over the CFG, with index equalities and flag values) decides for each array that every element store fills the slot "
+         "whose element is held elsewhere and that the pivot taken out is stored back on every path to the return. Chunking: the section "
          "sizes, division points and (start, end) table of isplit are evaluated abstractly (runs of equal values, their cumulative sum, offsets "
          "into it) and compared as integer terms with r sections of q+1 then nchunks-r of q; the list splitarray returns is read as a "
          "sequence (count, i-th element) whichever way it is built and compared with var[i*nper:(i+1)*nper], count ceil(size/nper). Helpers "
          "of the package are followed (yield from / for over a wrapping generator, helpers that return a possibly-None total, closures).",
     note="Not decided: that the partition-exchange sort sorts (a proof obligation about the algorithm), process scheduling (delegated "
          "to Executor.map's documented ordering). Trusted: concurrent.futures.Executor.map order, divmod identity.",
-    technique="static analysis: CFG path rules on loop bodies, interprocedural nullness dataflow, who-may-call, sibling skeleton comparison",
+    technique="static analysis: CFG path rules on loop bodies, interprocedural nullness / zeroness dataflow, vacated-slot typestate, who-may-call, "
+              "sibling skeleton comparison",
 )
 
 
 # rules that keep their verdict however the code is laid out (decided by term equality, effect analysis or dominance over
 # resolved calls); every other rule of this check is a template rule (vcheck.core.Check.obt)
-SEMANTIC = ('R20.gen', 'R20.isplit', 'R20.null', 'R20.pmap',
+SEMANTIC = ('R20.gen', 'R20.isplit', 'R20.null', 'R20.zero', 'R20.perm', 'R20.pmap',
             # decided by term equality on the evaluated element / range terms; they give "not recognised" themselves
             'R20.split::esutil.numpy_util.splitarray::consecutive-fixed-size-slices', 'R20.split::esutil.numpy_util.splitarray::chunk-count-is-ceil',
             'R20.sort::esutil.algorithm._quicksort::recursion', 'R20.sort::esutil.algorithm._quicksort_keyvalue::recursion')
@@ -551,6 +555,272 @@ def nullness(chk, repo):
                    "a possibly-None %s never reaches an ordering comparison or arithmetic unguarded in %s" % (list(k[1]), k[0]))
     chk.ob("R20.null", "nullness::callee-reached", any(k[0] == "esutil.pbar.format_meter" and "total" in k[1] for k in nl.memo), "esutil/pbar.py",
            "the analysis followed the possibly-None total into the meter formatter")
+    zeroness(chk, repo, entries)
+
+
+# ---------------------------------------------------------------------------
+def _num(e):
+    """the value of a numeric literal (also -1), else None"""
+    if isinstance(e, ast.UnaryOp) and isinstance(e.op, ast.USub):
+        v = _num(e.operand)
+        return -v if v is not None else None
+    if isinstance(e, ast.Constant) and isinstance(e.value, (int, float)) and not isinstance(e.value, bool):
+        return e.value
+    return None
+
+
+def _unwrap_num(e):
+    """float(x) / int(x) / abs(x) -> x"""
+    while isinstance(e, ast.Call) and isinstance(e.func, ast.Name) and e.func.id in ("float", "int", "abs") and len(e.args) == 1 and not e.keywords:
+        e = e.args[0]
+    return e
+
+
+class _Zero(_Null):
+    """the same dataflow machinery over another finite domain: the set of names that may hold 0.  The expected number of items
+    (`total=` as sent, or len() of the wrapped iterable) is 0 for an empty iterable, which the property quantifies over.  A name leaves
+    the set on the side of a test that excludes zero (truthiness, != 0, > 0, >= 1, ...), and in the body of the loop that draws the items:
+    there at least one item exists, so the number of items is >= 1 (a total= that contradicts the iterable is outside the quantifier)."""
+
+    def _src(self, fi, v, s):
+        """may the expression be 0, given the names `s` that may be?"""
+        v = _unwrap_num(v)
+        if isinstance(v, ast.Name):
+            return v.id in s
+        if isinstance(v, ast.Call) and isinstance(v.func, ast.Name) and v.func.id == "len" and len(v.args) == 1 and not v.keywords \
+                and isinstance(v.args[0], ast.Name) and v.args[0].id in func_params(fi.node):
+            return True                 # the length of a caller-supplied (possibly empty) iterable
+        if isinstance(v, ast.IfExp):
+            return self._src(fi, v.body, s) or self._src(fi, v.orelse, s)
+        if isinstance(v, ast.BoolOp):
+            return self._src(fi, v.values[-1], s) if isinstance(v.op, ast.Or) else any(self._src(fi, x, s) for x in v.values)
+        return False
+
+    def _item_loop(self, fi, a):
+        """a for-loop of a generator that draws the items of an iterable it was handed and yields them"""
+        if not _has_yield(a):
+            return False
+        for p in func_params(fi.node):
+            if _item_source(a, p, fi.node)[0] is not None or _delegating_loop(self.repo, fi, a, p) is not None:
+                return True
+        return False
+
+    def transfer(self, cfg, view, n, s):
+        a = n.ast
+        fi = self.ctx[0] if self.ctx is not None else None
+        if fi is not None and n.kind == "stmt" and isinstance(a, ast.Assign):
+            out = set(s)
+            for t in a.targets:
+                if isinstance(t, (ast.Tuple, ast.List)):
+                    vals = a.value.elts if isinstance(a.value, (ast.Tuple, ast.List)) and len(a.value.elts) == len(t.elts) else [None] * len(t.elts)
+                    pairs = list(zip(t.elts, vals))
+                else:
+                    pairs = [(t, a.value)]
+                for tt, v in pairs:
+                    if not isinstance(tt, ast.Name):
+                        continue
+                    maybe = v is not None and (self._src(fi, v, s) or (isinstance(v, ast.Call) and self.may_return_zero(fi, v, s, self.ctx[1])))
+                    (out.add if maybe else out.discard)(tt.id)
+            return {(n.id, None): out}
+        if fi is not None and n.kind == "loop" and isinstance(a, ast.For):
+            out = set(s)
+            for x in ast.walk(a.target):
+                if isinstance(x, ast.Name):
+                    out.discard(x.id)
+            body = set() if self._item_loop(fi, a) else out
+            res = {}
+            for j in view.g.successors(n.id):
+                labs = view.g[n.id][j]["labels"]
+                res[(n.id, j)] = set(body) if ("T" in labs and "F" not in labs) else set(out)
+            return res
+        return Nullness.transfer(self, cfg, view, n, s)
+
+    def _refine(self, t, s_true, s_false):
+        if isinstance(t, ast.Compare) and len(t.ops) == 1:
+            left, op, right = _unwrap_num(t.left), t.ops[0], _unwrap_num(t.comparators[0])
+            if isinstance(right, ast.Name) and not isinstance(left, ast.Name):
+                flip = {ast.Lt: ast.Gt, ast.LtE: ast.GtE, ast.Gt: ast.Lt, ast.GtE: ast.LtE}
+                left, right, op = right, left, flip.get(type(op), type(op))()
+            if not isinstance(left, ast.Name):
+                return
+            x = left.id
+            if isinstance(right, ast.Constant) and right.value is None:
+                if isinstance(op, (ast.Is, ast.Eq)):
+                    s_true.discard(x)      # it is None there, not 0 (the None rule looks after that)
+                elif isinstance(op, (ast.IsNot, ast.NotEq)):
+                    s_false.discard(x)
+                return
+            c = _num(right)
+            if c is None:
+                return
+            excl_true = {ast.Eq: c != 0, ast.NotEq: c == 0, ast.Gt: c >= 0, ast.GtE: c > 0, ast.Lt: c <= 0, ast.LtE: c < 0}.get(type(op), False)
+            excl_false = {ast.Eq: c == 0, ast.NotEq: c != 0, ast.Gt: c < 0, ast.GtE: c <= 0, ast.Lt: c > 0, ast.LtE: c >= 0}.get(type(op), False)
+            if excl_true:
+                s_true.discard(x)
+            if excl_false:
+                s_false.discard(x)
+            return
+        if isinstance(t, ast.Name) or isinstance(t, (ast.UnaryOp, ast.BoolOp)):
+            Nullness._refine(self, t, s_true, s_false)
+            return
+        u = _unwrap_num(t)
+        if u is not t:
+            self._refine(u, s_true, s_false)
+
+    def _divisors(self, e):
+        """the divisor expressions of e itself"""
+        if isinstance(e, ast.BinOp) and isinstance(e.op, (ast.Div, ast.FloorDiv)):
+            return [e.right]
+        if isinstance(e, ast.BinOp) and isinstance(e.op, ast.Mod):
+            # % on a string is formatting: only a left operand that is visibly a number counts
+            lf = _unwrap_num(e.left)
+            arith = isinstance(lf, ast.BinOp) and isinstance(lf.op, (ast.Add, ast.Sub, ast.Mult, ast.Div, ast.FloorDiv)) and \
+                not any(isinstance(x, ast.JoinedStr) or (isinstance(x, ast.Constant) and isinstance(x.value, (str, bytes))) for x in ast.walk(lf))
+            return [e.right] if (_num(lf) is not None or lf is not e.left or arith) else []
+        if isinstance(e, ast.Call) and isinstance(e.func, ast.Name) and e.func.id == "divmod" and len(e.args) == 2:
+            return [e.args[1]]
+        return []
+
+    def _zero_name(self, d, s):
+        """the possibly-zero name that makes the divisor d zero (the name itself, its negation, a product with it)"""
+        d = _unwrap_num(d)
+        if isinstance(d, ast.Name):
+            return d.id if d.id in s else None
+        if isinstance(d, ast.UnaryOp) and isinstance(d.op, (ast.USub, ast.UAdd)):
+            return self._zero_name(d.operand, s)
+        if isinstance(d, ast.BinOp) and isinstance(d.op, ast.Mult):
+            return self._zero_name(d.left, s) or self._zero_name(d.right, s)
+        return None
+
+    def uses(self, fi, n, s, chain):
+        a = n.ast
+        if a is None:
+            return
+        # inside a try whose handler takes the ZeroDivisionError the division is allowed to fail
+        if self.ctx is not None:
+            g = rules.cfg_of(fi).g
+            for j in (g.successors(n.id) if n.id in g else ()):
+                h = g.nodes[j]["node"]
+                if "exc" in g[n.id][j]["labels"] and h.kind == "handler":
+                    ht = h.ast.type
+                    names = {call_name(ast.Call(func=x, args=[], keywords=[])) for x in (ht.elts if isinstance(ht, ast.Tuple) else [ht])} if ht is not None else set()
+                    if ht is None or names & {"ZeroDivisionError", "ArithmeticError", "Exception", "BaseException"}:
+                        return
+        roots = []
+        if n.kind == "branch" or (n.kind == "loop" and isinstance(a, ast.While)):
+            roots = [a.test]
+        elif n.kind in ("stmt", "return", "raise"):
+            roots = [a]
+        elif n.kind == "loop":
+            roots = [a.iter]
+        for r in roots:
+            self._scan(fi, n, r, set(s), chain)
+
+    def _scan(self, fi, n, e, s, chain):
+        if isinstance(e, ast.BoolOp):
+            cur = set(s)
+            for v in e.values:
+                self._scan(fi, n, v, cur, chain)
+                t, f = set(cur), set(cur)
+                self._refine(v, t, f)
+                cur = t if isinstance(e.op, ast.And) else f
+            return
+        if isinstance(e, ast.IfExp):
+            t, f = set(s), set(s)
+            self._refine(e.test, t, f)
+            self._scan(fi, n, e.test, s, chain)
+            self._scan(fi, n, e.body, t, chain)
+            self._scan(fi, n, e.orelse, f, chain)
+            return
+        for d in self._divisors(e):
+            zn = self._zero_name(d, s)
+            if zn is not None:
+                self.reports.append((fi, e, zn, "division `%s` by a value that may be 0" % norm(e), chain))
+        if isinstance(e, ast.Call):
+            d = dotted_name(e.func)
+            full = self.repo.resolve_name(fi.module, d) if d else None
+            if full and self.repo.has(full):
+                callee = self.repo.func(full)
+                params = [p for p in callee.params if not p.startswith("*")]
+                mz = set()
+                for i, a in enumerate(e.args):
+                    if not isinstance(a, ast.Starred) and self._src(fi, a, s) and i < len(params):
+                        mz.add(params[i])
+                for k in e.keywords:
+                    if k.arg and self._src(fi, k.value, s):
+                        mz.add(k.arg)
+                if mz:
+                    self.analyse(callee, mz, chain + ("%s (%s)" % (fi.qualname, fi.where(e)),))
+        for c in ast.iter_child_nodes(e):
+            if isinstance(c, ast.keyword):
+                self._scan(fi, n, c.value, s, chain)
+            elif isinstance(c, ast.expr):
+                self._scan(fi, n, c, s, chain)
+
+    def may_return_zero(self, fi, call, s, chain, depth=0):
+        d = dotted_name(call.func)
+        if not d or depth > 4:
+            return False
+        full = self.repo.resolve_name(fi.module, d)
+        if not self.repo.has(full):
+            return False
+        callee = self.repo.func(full)
+        if rules.is_generator(callee.node):
+            return False
+        params = [p for p in callee.params if not p.startswith("*")]
+        mz = set()
+        for i, a in enumerate(call.args):
+            if not isinstance(a, ast.Starred) and self._src(fi, a, s) and i < len(params):
+                mz.add(params[i])
+        for k in call.keywords:
+            if k.arg and self._src(fi, k.value, s):
+                mz.add(k.arg)
+        key = (callee.qualname, tuple(sorted(mz)))
+        if key in self.retnone:
+            return self.retnone[key]
+        if key in self.memo and key not in self.state:
+            return False               # recursion: being analysed
+        self.analyse(callee, mz, chain + ("%s (%s)" % (fi.qualname, fi.where(call)),))
+        IN = self.state.get(key)
+        if IN is None:
+            return False
+        cfg = rules.cfg_of(callee)
+        view = cfg.view()
+        res = False
+        for n in rules.return_nodes(cfg):
+            if not view.reachable(n) or n.ast.value is None:
+                continue
+            v = n.ast.value
+            st = IN.get(n.id, set())
+            if self._src(callee, v, st) or (isinstance(_unwrap_num(v), ast.Call) and self.may_return_zero(callee, _unwrap_num(v), st, chain, depth + 1)):
+                res = True
+        self.retnone[key] = res
+        return res
+
+
+def zeroness(chk, repo, entries):
+    """R20.zero: wrapping an EMPTY iterable yields nothing; it must not fail.  The expected number of items is then 0, so every division by
+    it that can execute before an item was drawn needs a dominating zero-excluding test, in the wrappers and in everything they hand it to"""
+    zr = _Zero(repo)
+    for q, mz in entries:
+        zr.analyse(repo.func(q), mz)
+    chk.notes["zeroness_functions_analysed"] = sorted(k[0] + str(list(k[1])) for k in zr.memo)
+    seen = set()
+    for fi, node, var, what, chain in zr.reports:
+        key = "%s::%s::%s" % (fi.qualname, var, norm(node))
+        if key in seen:
+            continue
+        seen.add(key)
+        chk.ob("R20.zero", key, False, fi.where(node),
+               "%s in %s: `%s` is 0 when the wrapped iterable is empty (len() == 0, or total=0) and no test that excludes 0 dominates the division, "
+               "so wrapping an empty iterable raises ZeroDivisionError instead of yielding nothing%s"
+               % (what, fi.qualname, var, "".join(" <- via %s" % c for c in chain)))
+    for k in zr.memo:
+        if not k[1]:
+            continue
+        if not any(r[0].qualname == k[0] for r in zr.reports):
+            chk.ob("R20.zero", "%s%s::no-unguarded-division" % (k[0], list(k[1])), True, zr.fis[k].where(),
+                   "a possibly-zero %s is never a divisor outside the item loop without a dominating test that excludes 0 in %s" % (list(k[1]), k[0]))
 
 
 # ---------------------------------------------------------------------------
@@ -743,6 +1013,490 @@ def keyvalue(chk, repo):
         withcalls = [n for n in cfg.nodes if any(call_name(c) in (part, fi.name) for c in rules.stmts_calls(n))]
         ok = bool(withcalls) and all("%s < %s" % (lo, hi) in _facts(v, n) for n in withcalls)
         chk.ob("R20.sort", q2 + "::guard", ok, fi.where(), "partition and recursion only for ranges of two or more elements (start < end)")
+    # no element is lost or duplicated by either partition (typestate of the vacated slot)
+    permutation(chk, pp, pp.params[:1])
+    permutation(chk, pk, pk.params[:2])
+
+
+# ---------------------------------------------------------------------------
+# R20.perm: the partition keeps the elements of every array it moves (a permutation), decided by a typestate analysis of the
+# "vacated slot".  Abstract state, per path through the CFG (all inputs at once; nothing is executed):
+#   * equalities / disequalities between index terms (names, literals, `start - 1`), learnt from assignments and from the tests on
+#     the branch taken; flags such as `done` are index terms equal to a literal, which also prunes the edges a flag rules out;
+#   * per array: closed (every element is in some slot), or open: the local that holds the element taken out, and the slot whose
+#     content is a stale duplicate ("$h:<array>", an index term like any other);
+#   * locals that hold a copy of a slot ("$c:<local>" is the index term of that slot).
+# `a[i] = a[j]` must have i == the vacated slot (the vacated slot becomes j); `a[i] = saved` with i == the vacated slot closes the
+# array; so does the "equal" side of a test a[i] == saved with i the vacated slot (the slot already holds an equal element).  Every
+# path must reach the return with every array closed.
+_IDENT = None
+
+
+def _idents(text):
+    global _IDENT
+    if _IDENT is None:
+        import re
+        _IDENT = re.compile(r"[A-Za-z_]\w*")
+    return set(_IDENT.findall(text)) if not text.startswith("$") else set()
+
+
+def _is_const(t):
+    return t in ("True", "False", "None") or t.lstrip("-").isdigit()
+
+
+def _const_val(t):
+    return {"True": 1, "False": 0, "None": None}.get(t, None) if not t.lstrip("-").isdigit() else int(t)
+
+
+class _HS:
+    """one abstract state of the vacated-slot analysis (see above)"""
+    __slots__ = ("eq", "ne", "open", "cp", "unk")
+
+    def __init__(self):
+        self.eq = []        # list of sets of index terms known equal (size >= 2)
+        self.ne = set()     # frozenset({a, b}): known different
+        self.open = {}      # array -> local holding the element taken out
+        self.cp = {}        # local -> array: the local holds a copy of array[$c:local]
+        self.unk = None     # text of a construct the analysis does not follow
+
+    def copy(self):
+        o = _HS()
+        o.eq = [set(c) for c in self.eq]
+        o.ne = set(self.ne)
+        o.open = dict(self.open)
+        o.cp = dict(self.cp)
+        o.unk = self.unk
+        return o
+
+    def key(self):
+        return (frozenset(frozenset(c) for c in self.eq if len(c) > 1), frozenset(self.ne), tuple(sorted(self.open.items())),
+                tuple(sorted(self.cp.items())), self.unk)
+
+    def cls(self, t):
+        for c in self.eq:
+            if t in c:
+                return c
+        return {t}
+
+    def same(self, a, b):
+        return a == b or b in self.cls(a)
+
+    def differ(self, a, b):
+        for x in self.cls(a):
+            for y in self.cls(b):
+                if frozenset((x, y)) in self.ne or (_is_const(x) and _is_const(y) and x != y):
+                    return True
+        return False
+
+    def union(self, a, b):
+        """False: the state is infeasible (a != b is known)"""
+        if self.same(a, b):
+            return True
+        if self.differ(a, b):
+            return False
+        ca, cb = self.cls(a), self.cls(b)
+        self.eq = [c for c in self.eq if c is not ca and c is not cb] + [set(ca) | set(cb)]
+        return True
+
+    def set_ne(self, a, b):
+        if self.same(a, b):
+            return False
+        self.ne.add(frozenset((a, b)))
+        return True
+
+    def forget(self, pred):
+        """drop the index terms selected by pred; what is known about them passes to a surviving term of their class"""
+        for c in list(self.eq):
+            dead = {t for t in c if pred(t)}
+            if not dead:
+                continue
+            live = c - dead
+            rep = sorted(live)[0] if live else None
+            for pr in list(self.ne):
+                if pr & dead:
+                    self.ne.discard(pr)
+                    other = pr - dead
+                    if rep is not None and len(other) == 1:
+                        self.ne.add(frozenset((rep, next(iter(other)))))
+            self.eq.remove(c)
+            if len(live) > 1:
+                self.eq.append(live)
+        for pr in list(self.ne):
+            if any(pred(t) for t in pr):
+                self.ne.discard(pr)
+
+    def kill_name(self, x):
+        self.forget(lambda t: x in _idents(t))
+
+    def kill_term(self, t0):
+        self.forget(lambda t: t == t0)
+
+
+def _index_term(e):
+    """text of an index expression the analysis can name (names, literals, + and - of those), else None"""
+    if isinstance(e, ast.Name):
+        return e.id
+    if isinstance(e, ast.Constant) and (isinstance(e.value, (int, bool)) or e.value is None):
+        return norm(e)
+    if isinstance(e, ast.UnaryOp) and isinstance(e.op, ast.USub) and isinstance(e.operand, ast.Constant) and isinstance(e.operand.value, int):
+        return norm(e)
+    if isinstance(e, ast.BinOp) and isinstance(e.op, (ast.Add, ast.Sub)) and _index_term(e.left) is not None and _index_term(e.right) is not None:
+        return norm(e)
+    return None
+
+
+class _Vacated:
+    def __init__(self, fi, arrays):
+        self.fi = fi
+        self.arrays = list(arrays)
+        self.cfg = cfg_of(fi)
+        self.view = self.cfg.view()
+        self.stores = {}       # id(stmt) -> (stmt, [verdicts], [texts])
+        self.exits = []        # states that reach the normal exit
+        self.blown = False
+
+    # -- expressions ------------------------------------------------------
+    def elem(self, e):
+        """(array, index term) of `array[index]`, else None"""
+        if isinstance(e, ast.Subscript) and isinstance(e.value, ast.Name) and e.value.id in self.arrays and not isinstance(e.slice, (ast.Slice, ast.Tuple)):
+            t = _index_term(e.slice)
+            return (e.value.id, t if t is not None else "?" + norm(e.slice))
+        return None
+
+    def touches(self, node):
+        """does the node hand an array to something, or store to it in a way that is not a plain element store?"""
+        for x in ast.walk(node):
+            if isinstance(x, ast.Name) and x.id in self.arrays:
+                return True
+        return False
+
+    def truth(self, t, st):
+        if isinstance(t, ast.Constant):
+            return bool(t.value)
+        if isinstance(t, ast.UnaryOp) and isinstance(t.op, ast.Not):
+            v = self.truth(t.operand, st)
+            return None if v is None else (not v)
+        if isinstance(t, ast.BoolOp):
+            vs = [self.truth(v, st) for v in t.values]
+            if isinstance(t.op, ast.And):
+                return False if any(v is False for v in vs) else (True if all(v is True for v in vs) else None)
+            return True if any(v is True for v in vs) else (False if all(v is False for v in vs) else None)
+        if isinstance(t, ast.Name):
+            for x in st.cls(t.id):
+                if _is_const(x):
+                    return bool(_const_val(x))
+            return None
+        if isinstance(t, ast.Compare) and len(t.ops) == 1 and isinstance(t.ops[0], (ast.Eq, ast.NotEq)):
+            a, b = _index_term(t.left), _index_term(t.comparators[0])
+            if a is not None and b is not None:
+                r = True if st.same(a, b) else (False if st.differ(a, b) else None)
+                return r if (r is None or isinstance(t.ops[0], ast.Eq)) else (not r)
+        return None
+
+    def assume(self, t, val, st):
+        """refine st with `t` having the truth value `val`; False: infeasible"""
+        if isinstance(t, ast.UnaryOp) and isinstance(t.op, ast.Not):
+            return self.assume(t.operand, not val, st)
+        if isinstance(t, ast.BoolOp):
+            if isinstance(t.op, ast.And) == val:
+                return all(self.assume(v, val, st) for v in t.values)
+            return True
+        if isinstance(t, ast.Compare) and len(t.ops) == 1 and isinstance(t.ops[0], (ast.Eq, ast.NotEq)):
+            equal = isinstance(t.ops[0], ast.Eq) == val
+            a, b = _index_term(t.left), _index_term(t.comparators[0])
+            if a is not None and b is not None:
+                return st.union(a, b) if equal else st.set_ne(a, b)
+            # content test: array[i] == saved, i the vacated slot -> the slot holds an element equal to the one taken out
+            for l, r in ((t.left, t.comparators[0]), (t.comparators[0], t.left)):
+                el = self.elem(l)
+                if equal and el is not None and isinstance(r, ast.Name) and st.open.get(el[0]) == r.id and st.same(el[1], "$h:" + el[0]):
+                    self.close(st, el[0], el[1])
+        return True
+
+    def close(self, st, arr, idx):
+        sv = st.open.pop(arr)
+        st.kill_term("$h:" + arr)
+        st.kill_term("$c:" + sv)
+        st.union("$c:" + sv, idx)
+
+    # -- statements -------------------------------------------------------
+    def note(self, stmt, verdict, text):
+        rec = self.stores.setdefault(id(stmt), (stmt, [], []))
+        rec[1].append(verdict)
+        if verdict is not True and text not in rec[2]:
+            rec[2].append(text)
+
+    def store(self, st, stmt, target, value):
+        """array[i] = value"""
+        arr, i = self.elem(target)
+        src = self.elem(value)
+        saved = st.open.get(arr)
+        if src is None and isinstance(value, ast.Name) and st.cp.get(value.id) == arr and value.id != saved:
+            src = (arr, "$c:" + value.id)            # a local copy of a slot stands for that slot
+        hole = "$h:" + arr
+        if src is not None and src[0] == arr:
+            j = src[1]
+            if st.same(i, j):
+                self.note(stmt, True, "")
+                return
+            if saved is not None:
+                if st.same(i, hole):
+                    st.kill_term(hole)
+                    st.union(hole, j)
+                    self.drop_copies(st, arr, i, keep=saved)
+                    self.note(stmt, True, "")
+                elif st.differ(i, hole):
+                    self.note(stmt, False, "`%s` overwrites %s[%s], which is not the vacated slot: that element is lost" % (norm(stmt), arr, i))
+                    st.unk = norm(stmt)
+                else:
+                    self.note(stmt, None, "`%s`: %s is not known to be the vacated slot" % (norm(stmt), i))
+                    st.unk = norm(stmt)
+                return
+            keepers = [v for v, a in st.cp.items() if a == arr and st.same("$c:" + v, i)]
+            if keepers:
+                sv = sorted(keepers)[0]
+                st.open[arr] = sv
+                st.kill_term(hole)
+                st.union(hole, j)
+                self.drop_copies(st, arr, i, keep=sv)
+                self.note(stmt, True, "")
+            elif not any(a == arr for a in st.cp.values()):
+                self.note(stmt, False, "`%s` overwrites %s[%s] while no local keeps that element" % (norm(stmt), arr, i))
+                st.unk = norm(stmt)
+            else:
+                self.note(stmt, None, "`%s`: no local is known to keep %s[%s]" % (norm(stmt), arr, i))
+                st.unk = norm(stmt)
+            return
+        if isinstance(value, ast.Name) and saved == value.id:
+            if st.same(i, hole):
+                self.close(st, arr, i)
+                self.note(stmt, True, "")
+            elif st.differ(i, hole):
+                self.note(stmt, False, "`%s` puts the element taken out into %s[%s], which is not the vacated slot" % (norm(stmt), arr, i))
+                st.unk = norm(stmt)
+            else:
+                self.note(stmt, None, "`%s`: %s is not known to be the vacated slot" % (norm(stmt), i))
+                st.unk = norm(stmt)
+            return
+        self.note(stmt, None, "`%s`: the stored value is neither an element of %s nor the element taken out" % (norm(stmt), arr))
+        st.unk = norm(stmt)
+
+    def drop_copies(self, st, arr, i, keep):
+        for v, a in list(st.cp.items()):
+            if a == arr and v != keep and not st.differ("$c:" + v, i):
+                del st.cp[v]
+                st.kill_term("$c:" + v)
+
+    def assign_name(self, st, name, value):
+        if name in self.arrays:
+            st.unk = "array %s re-bound" % name
+            return
+        if name in st.open.values():
+            st.unk = "the local `%s` that holds the element taken out is re-bound" % name
+        if name in st.cp:
+            del st.cp[name]
+            st.kill_term("$c:" + name)
+        t = _index_term(value) if value is not None else None
+        st.kill_name(name)
+        el = self.elem(value) if value is not None else None
+        if el is not None:
+            if el[1].startswith("?"):
+                st.unk = "element read at an index the analysis cannot name: `%s`" % norm(value)
+                return
+            st.cp[name] = el[0]
+            st.union("$c:" + name, el[1])
+        elif t is not None and name not in _idents(t):
+            st.union(name, t)
+        elif value is not None and self.touches(value):
+            st.unk = "`%s = %s`" % (name, norm(value))
+
+    def stmt(self, st, a):
+        if isinstance(a, ast.Assign):
+            pairs = []
+            for t in a.targets:
+                if isinstance(t, (ast.Tuple, ast.List)):
+                    if isinstance(a.value, (ast.Tuple, ast.List)) and len(a.value.elts) == len(t.elts):
+                        pairs += list(zip(t.elts, a.value.elts))
+                    else:
+                        pairs += [(x, None) for x in t.elts]
+                else:
+                    pairs.append((t, a.value))
+            arrs = [self.elem(t)[0] for t, _ in pairs if self.elem(t) is not None]
+            if len(pairs) > 1 and (len(set(arrs)) != len(arrs) or any(self.elem(t) is None for t, _ in pairs)):
+                if self.touches(a):
+                    st.unk = norm(a)          # parallel assignment mixing slots of one array (a swap): another algorithm
+                    return
+            for t, v in pairs:
+                if self.elem(t) is not None and v is not None:
+                    self.store(st, a, t, v)
+                elif isinstance(t, ast.Name):
+                    self.assign_name(st, t.id, v)
+                elif self.touches(t) or (v is not None and self.touches(v)):
+                    st.unk = norm(a)
+            return
+        if isinstance(a, ast.AugAssign):
+            if isinstance(a.target, ast.Name) and not self.touches(a.value):
+                self.assign_name(st, a.target.id, None)
+            elif self.touches(a):
+                st.unk = norm(a)
+            return
+        if isinstance(a, (ast.Pass, ast.Break, ast.Continue, ast.Import, ast.ImportFrom, ast.Global, ast.Nonlocal)):
+            return
+        if isinstance(a, ast.Expr) and isinstance(a.value, ast.Constant):
+            return
+        if isinstance(a, ast.Assert):
+            return
+        if self.touches(a):
+            st.unk = norm(a)[:60]
+            return
+        for x in ast.walk(a):
+            if isinstance(x, ast.Name) and isinstance(x.ctx, (ast.Store, ast.Del)):
+                self.assign_name(st, x.id, None)
+
+    # -- exploration ------------------------------------------------------
+    def run(self):
+        cfg = self.cfg
+        seen = set()
+        work = [(cfg.entry, _HS())]
+        while work:
+            n, st = work.pop()
+            k = (n.id, st.key())
+            if k in seen:
+                continue
+            seen.add(k)
+            if len(seen) > 20000:
+                self.blown = True
+                return
+            if n is cfg.exit:
+                self.exits.append(st)
+                continue
+            if n is cfg.raise_exit:
+                continue
+            a = n.ast
+            test = None
+            if n.kind == "branch" or (n.kind == "loop" and isinstance(a, ast.While)):
+                test = a.test
+            elif n.kind == "loop":
+                st = st.copy()
+                for x in ast.walk(a.target):
+                    if isinstance(x, ast.Name):
+                        self.assign_name(st, x.id, None)
+                if self.touches(a.iter):
+                    st.unk = "loop over `%s`" % norm(a.iter)
+            elif n.kind == "stmt":
+                st = st.copy()
+                self.stmt(st, a)
+            elif n.kind in ("return", "raise"):
+                if a is not None and getattr(a, "value", None) is not None and any(isinstance(x, ast.Call) for x in ast.walk(a.value)) and self.touches(a.value):
+                    st = st.copy()
+                    st.unk = norm(a)
+            elif n.kind in ("with", "try", "handler", "def"):
+                if n.kind != "try" and a is not None:
+                    st = st.copy()
+                    st.unk = "%s block" % n.kind
+                elif n.kind == "try":
+                    st = st.copy()
+                    st.unk = "try block"
+            tv = self.truth(test, st) if test is not None else None
+            for j in self.view.g.successors(n.id):
+                labs = self.view.g[n.id][j]["labels"]
+                m = self.cfg.node(j)
+                if test is None:
+                    work.append((m, st))
+                    continue
+                for lab in ("T", "F"):
+                    if lab not in labs or tv is (lab == "F"):
+                        continue
+                    s2 = st.copy()
+                    if self.assume(test, lab == "T", s2):
+                        work.append((m, s2))
+
+    # -- verdicts ---------------------------------------------------------
+    def write_backs(self, arr):
+        """statements `arr[i] = <local that was read from arr>`"""
+        out = []
+        readers = {x.targets[0].id for x in walk_no_nested(self.fi.node) if isinstance(x, ast.Assign) and len(x.targets) == 1
+                   and isinstance(x.targets[0], ast.Name) and self.elem(x.value) is not None and self.elem(x.value)[0] == arr}
+        for x in walk_no_nested(self.fi.node):
+            if isinstance(x, ast.Assign):
+                ts = x.targets[0].elts if isinstance(x.targets[0], (ast.Tuple, ast.List)) else x.targets
+                vs = x.value.elts if isinstance(x.targets[0], (ast.Tuple, ast.List)) and isinstance(x.value, (ast.Tuple, ast.List)) else [x.value] * len(ts)
+                for t, v in zip(ts, vs):
+                    if self.elem(t) is not None and self.elem(t)[0] == arr and isinstance(v, ast.Name) and v.id in readers:
+                        out.append(x)
+        return out
+
+    def content_only(self, test):
+        """the test compares nothing but array elements and locals read from the arrays (it says nothing about positions)"""
+        readers = {x.targets[0].id for x in walk_no_nested(self.fi.node) if isinstance(x, ast.Assign) and len(x.targets) == 1
+                   and isinstance(x.targets[0], ast.Name) and self.elem(x.value) is not None}
+        ops = []
+
+        def leaves(t):
+            if isinstance(t, ast.BoolOp):
+                for v in t.values:
+                    leaves(v)
+            elif isinstance(t, ast.UnaryOp) and isinstance(t.op, ast.Not):
+                leaves(t.operand)
+            elif isinstance(t, ast.Compare):
+                ops.extend([t.left] + list(t.comparators))
+            else:
+                ops.append(None)
+        leaves(test)
+        return bool(ops) and all(o is not None and (self.elem(o) is not None or (isinstance(o, ast.Name) and o.id in readers)) for o in ops)
+
+
+def permutation(chk, fi, arrays):
+    q = fi.qualname
+    va = _Vacated(fi, arrays)
+    try:
+        va.run()
+    except AnalysisError:
+        va.blown = True
+    unk = sorted({st.unk for st in va.exits if st.unk is not None})
+    for k, (stmt, verdicts, texts) in enumerate(sorted(va.stores.values(), key=lambda r: _pos(r[0]))):
+        ok = False if any(v is False for v in verdicts) else (None if any(v is None for v in verdicts) else True)
+        chk.ob("R20.perm", "%s::store-fills-the-vacated-slot::S%d::%s" % (q, k + 1, norm(stmt)), ok, fi.where(stmt),
+               "an element store overwrites only the slot whose element is held elsewhere (the pivot's slot, then the slot last moved from): "
+               "no element is lost or duplicated %s" % ("; ".join(texts)))
+    bad_store = any(any(v is False for v in r[1]) for r in va.stores.values())
+    for arr in arrays:
+        left = [st for st in va.exits if st.unk is None and arr in st.open]
+        ok, why = True, ""
+        if va.blown or not va.exits:
+            ok, why = None, "the paths of the function could not be enumerated"
+        elif left:
+            wbs = va.write_backs(arr)
+            sv = sorted({st.open[arr] for st in left})
+            if not wbs:
+                ok, why = False, "`%s` is taken out of %s and never stored back" % (sv[0], arr)
+            else:
+                tests = []
+                for w in wbs:
+                    nd = rules.node_of_stmt(va.cfg, w)
+                    if nd is None:
+                        continue
+                    # the tests the write-back depends on and the return does not
+                    common = None
+                    for rn in rules.return_nodes(va.cfg) + [x for x in rules.falls_off_end(va.cfg, va.view)]:
+                        cb = {(b.id, lab) for b, lab in va.view.controlling_branches(rn)}
+                        common = cb if common is None else (common & cb)
+                    for b, lab in va.view.controlling_branches(nd):
+                        if (b.id, lab) not in (common or set()) and (b.kind == "branch" or isinstance(b.ast, ast.While)):
+                            tests.append((b.ast.test, lab))
+                if tests and all(va.content_only(t) for t, _ in tests):
+                    ok = False
+                    why = "the write-back `%s` is skipped when `%s` is %s, a comparison of contents that says nothing about %s[...]: the vacated slot keeps a stale " \
+                          "copy of a moved element and the element in `%s` is lost" % (norm(wbs[0]), norm(tests[0][0]), "false" if tests[0][1] == "T" else "true", arr, sv[0])
+                else:
+                    ok, why = None, "a path returns without the write-back `%s`; the condition it depends on is not understood" % norm(wbs[0])
+        elif unk and not bad_store:
+            ok, why = None, "construct not followed: %s" % unk
+        elif unk:
+            continue                    # reported by the store instance
+        chk.ob("R20.perm", "%s::element-taken-out-is-put-back::%s" % (q, arr), ok, fi.where(),
+               "every path to the return stores the element taken out of `%s` (the pivot) back into the vacated slot, or finds an equal element there%s"
+               % (arr, (": " + why) if why else ""))
 
 
 def _sort_ranges(fi, part, nargs):
